@@ -166,7 +166,7 @@ def worker(repo_root: str, out_path: str, only: List[str]):
     def describe(name, argtys, origin, res):
         fir, tm, ct = res["ir"], res["typemap"], res["calltypes"]
         facts = dict(kernel=name, args=[_tname(a) for a in argtys], origin=origin, ok=True, error=None,
-                     setitems=[], inplace=[], binops=[], calls=[], vars={}, returns=_tname(res.get("return_type")),
+                     setitems=[], inplace=[], binops=[], calls=[], vars={}, casts=[], returns=_tname(res.get("return_type")),
                      getitems=[])
         for vn, ty in tm.items():
             base = vn.split(".")[0]
@@ -191,6 +191,22 @@ def worker(repo_root: str, out_path: str, only: List[str]):
                     facts["setitems"].append(dict(line=line, target=st.target.name.split(".")[0],
                                                   target_type=_tname(tt), target_dtype=_tname(getattr(tt, "dtype", tt)),
                                                   value_type=_tname(vt), value_dtype=_tname(vd), index_type=_tname(it)))
+                if isinstance(st, nir.Assign) and not st.target.name.startswith("$"):
+                    # implicit conversion on assignment (unification widening)
+                    vty = None
+                    if isinstance(st.value, nir.Var):
+                        vty = tm.get(st.value.name)
+                    elif isinstance(st.value, nir.Expr) and st.value.op in ("binop", "inplace_binop", "call", "getitem", "static_getitem"):
+                        sg = ct.get(st.value)
+                        vty = sg.return_type if sg is not None else None
+                    elif isinstance(st.value, nir.Const):
+                        vty = None
+                    tty = tm.get(st.target.name)
+                    if vty is not None and tty is not None:
+                        v2 = vty.literal_type if isinstance(vty, types.Literal) else vty
+                        if v2 != tty and isinstance(v2, (types.Integer, types.Float, types.Boolean)) and isinstance(tty, (types.Integer, types.Float)):
+                            facts["casts"].append(dict(line=line, target=st.target.name.split(".")[0], target_type=_tname(tty),
+                                                       value_type=_tname(v2)))
                 if isinstance(st, nir.Assign) and isinstance(st.value, nir.Expr):
                     e = st.value
                     if e.op in ("binop", "inplace_binop"):
@@ -198,6 +214,8 @@ def worker(repo_root: str, out_path: str, only: List[str]):
                         rec = dict(line=line, fn=getattr(e.fn, "__name__", str(e.fn)), lhs=_tname(lt), rhs=_tname(rt),
                                    result=_tname(tm[st.target.name]), lhs_var=e.lhs.name.split(".")[0],
                                    rhs_var=e.rhs.name.split(".")[0], target=st.target.name.split(".")[0])
+                        rec["lhs_lit"] = isinstance(lt, types.Literal) or e.lhs.name.startswith("$const")
+                        rec["rhs_lit"] = isinstance(rt, types.Literal) or e.rhs.name.startswith("$const")
                         if isinstance(lt, types.Literal):
                             rec["lhs"] = _tname(lt.literal_type)
                         if isinstance(rt, types.Literal):
